@@ -25,6 +25,13 @@ CHECKS = {
              'swallowed by an unterminated instance/string are exempt from confinement. Known defects are in known_findings.json.',
         technique='exhaustive single-fault enumeration over structured inputs on the real reader + confinement oracle',
         ref='3/C03'),
+    'C15': dict(
+        text='Exhaustive configuration x input enumeration on the real reader: strict in {off,on} x every entity of families K and I x every attribute '
+             'position (own, inherited, inside each part of an externally mapped instance) replaced by `$` and by the empty parameter; the severity, the '
+             'incomplete state, the value written back and the exit status of p21read [-s] are compared with the table stated by the property.',
+        note='Trusted: p21ref/smodel; defined types of INTEGER/REAL/NUMBER/STRING are judged like their base type.',
+        technique='exhaustive configuration x single-deviation input enumeration on the real reader + table oracle',
+        ref='3/C15'),
     'C19': dict(
         text='Explicit-state breadth-first search over operation histories on the real Python ARRAY/LIST/BAG/SET classes: 1224 constructions '
              '(bounds -1..3 x 0..4/unbounded x UNIQUE x OPTIONAL x 5 base types), every item assignment/add/read/query in every distinct state to depth 6 '
